@@ -807,8 +807,25 @@ let make_m1 (params : string list) : machine =
             let d = { nodes1 = phys_of !rk !st.forest; fastidx = []; label = None } in
             let ivz = (if iv = "-" then Z0 else z_of_string iv) in
             let rec nat_of_int n = if n <= 0 then O else S (nat_of_int (n - 1)) in
+            (* on a plain MemDB the prefix lengths are predicted too: the cut points of
+               Flusher.fl_batches over PhysCommit.commit_bops, counted in node-store writes *)
+            let cfgl = String.split_on_char ',' (header_param params "cfg" "") in
+            let predicted_js =
+              (if List.mem "backend=memdb" cfgl && not is_legacy && Sys.getenv_opt "VERIF_NOFMIRROR" = None then
+                 (match List.find_opt (fun p -> starts_with "flush=" p) cfgl with
+                  | Some f ->
+                      let th = int_of_string (String.sub f 6 (String.length f - 6)) in
+                      let batches = List.filter (fun b -> b <> []) (fl_batches (z_of_int th) (commit_bops_sha !fs)) in
+                      let is_node_op = function
+                        | BSet0 (k, _) | BDel0 k -> List.length k = 13 && (match k with x :: _ -> int_of_n x = 115 | [] -> false) in
+                      let counts = List.rev (snd (List.fold_left (fun (n, acc) b ->
+                          let n' = n + List.length (List.filter is_node_op b) in (n', n' :: acc)) (0, [ 0 ]) batches)) in
+                      Some (List.sort_uniq compare counts)
+                  | None -> None)
+               else None) in
             let js =
-              (if starts_with "ct[" impl then
+              (match predicted_js with Some l -> l | None ->
+               if starts_with "ct[" impl then
                  (try
                     let e = String.index impl ']' in
                     let body = String.sub impl 3 (e - 3) in
